@@ -524,7 +524,7 @@ def plan(tier, seed):
                       'conformations x variant per tag in {ASP, displaced ASP, ALA, ASP without side chain}, plus partial '
                       'alternates (side chain only); MODEL layouts: model numbers (1),(1,2),(1,10),(1,2,3)[,(2,5)] x '
                       'variant per model incl. absent; 11 docked pairs/clusters repeated as 2 and 3 identical models; the '
-                      'multi-conformation files of the test-suite. also: the varying residue first / last in its chain, alternate locations on one single atom, a second varying residue (docked lysine with its own tag set), insertion-code twins of the varying residue, a partner chain / a chain holding one ion or one free amino acid present in some models only, models without closing TER, a disulfide present in some conformations only, a hetero-atom variant of the residue, supplied hydrogens kept in every conformation. non-trivial = distinct layouts in which at least one '
+                      'multi-conformation files of the test-suite. a docked aspartate of the same chain and number with an insertion code (same printed label); also: the varying residue first / last in its chain, alternate locations on one single atom, a second varying residue (docked lysine with its own tag set), insertion-code twins of the varying residue, a partner chain / a chain holding one ion or one free amino acid present in some models only, models without closing TER, a disulfide present in some conformations only, a hetero-atom variant of the residue, supplied hydrogens kept in every conformation. non-trivial = distinct layouts in which at least one '
                       'group exists in more than one conformation or in only some conformations'),
                 bounds=dict(max_conformations=3, layouts=len(lay), repeats=len(reps), files=len(files)),
                 samples=[lay[100], reps[0]])
